@@ -36,7 +36,7 @@ CONSTANTS
     Confs,        \* model checking: set of configurations
                   \*   [env |-> "sandbox" | "immutable",
                   \*    impl |-> "abstract" | "operational" | "legacy"   (which gate decides),
-                  \*    policy |-> "default" | "denyname",
+                  \*    policy |-> "default" | "denyname" | "denyobj",
                   \*    icept |-> set of intercepted operators ("u-" / "u+" = the unary ones)]
     MaxSteps,     \* model checking: number of Fetch / operator steps explored
     ModelKinds,   \* model checking: object kinds the adversary pokes at
@@ -188,7 +188,8 @@ Val(kind, a, how) == <<kind, a.n, how>>
 IsCallableVal(v) ==
     \/ v[1] \in ContainerKinds /\ v[3] = "attr" /\ v[2] \in Methods(v[1]) \ DataAttrs(v[1])
     \/ v[2] \in {"run", "delete", "save", "denied"}
-CallableOf(v) == [id |-> v, unsafe |-> (v[2] = "delete"), alters |-> (v[2] = "save"), name |-> v[2]]
+CallableOf(v) == [id |-> v, unsafe |-> (v[2] = "delete"), alters |-> (v[2] = "save"), name |-> v[2],
+                  denied |-> (v[2] = "denied")]
 
 MFetch ==
     \/ \E kind \in ModelKinds : \E a \in NamesOf(kind) :
